@@ -7,7 +7,7 @@ import random
 import z3
 
 from .common import PREFIX, And, Case, Or, SymBool, call, close, exact_eq
-from .names_common import (PREFIX_SYMS, oracle_var, unit_ok as _unit_ok, PREFIX_WORD, denotation, dimvec, distinct_denotations, expected, label_of, readings, sym_registry,
+from .names_common import (PREFIX_SYMS, oracle_var, vec_add, unit_ok as _unit_ok, PREFIX_WORD, denotation, dimvec, distinct_denotations, expected, label_of, readings, sym_registry,
                            tables)  # noqa: F401
 
 LEVEL = "other"
@@ -32,7 +32,15 @@ MANIFEST = dict(
           "by string and by namespace, one row at a time through the histories and all rows of a case in one registry. "
           "(e) edits of a table symbol in a custom registry after every spelling of it was used once (modify, re-add, remove, "
           "remove-add, re-add with the other prefixable flag, copy-then-modify both ways, modify twice; symbolic and plain table): "
-          "every spelling == prefix * NEW scale by string and by namespace, bound to the registry asked, rejected after removal."),
+          "every spelling == prefix * NEW scale by string and by namespace, bound to the registry asked, rejected after removal. "
+          "(f) the form of the unit string: every name with a non-ASCII character and a sample (thorough: all) of the others handed over as "
+          "utf-8 bytes, numpy.bytes_, numpy.str_ and a str subclass - before and after the str spelling was resolved on the same registry - and "
+          "as bytes through unyt_quantity/unyt_array(units=), quantity.to and in_units: the same unit as the str spelling, for all scales. "
+          "(g) related strings resolved earlier on one registry (the registry's cache is keyed by the typed string): for a documented name "
+          "n = a ++ b of two documented names the juxtapositions 'a b' (blank, blanks, tab), the product 'a*b', n with a leading / trailing "
+          "blank, and the documented names that differ from n only by letter case or underscores, resolved before / after / around n: n and "
+          "every documented relative keep their reading, 'a*b' is the product unit, a juxtaposition is refused or the product, and every "
+          "related string has one outcome in all positions."),
     design="DESIGN.md section 4 C14",
     technique="SMT string queries (z3 seq) with all-SAT + completeness; symbolic execution of the real lookup over z3 real scales; replay")
 EXPLANATION = (
@@ -62,7 +70,15 @@ EXPLANATION = (
     "unit strings from a cache keyed by the typed string, so every spelling of a table symbol (aliases, title-case variants, prefixed "
     "symbol / short-alias / word / title-word forms) is resolved once, then the symbol is modified / re-added / removed / re-added "
     "with the other prefixable flag / edited in a copy, and every spelling must equal prefix * the NEW symbolic scale (z3, for all "
-    "scales), belong to the registry it was asked from, be rejected after removal, and agree with the add_symbols namespace."
+    "scales), belong to the registry it was asked from, be rejected after removal, and agree with the add_symbols namespace. "
+    "The FORM of the string (forms/*): Unit() takes the name as str or bytes and every constructor / conversion passes its `units` argument on, "
+    "so the object type is an axis: bytes (utf-8), numpy.bytes_, numpy.str_, a str subclass x the receiving call (Unit, unyt_quantity, "
+    "unyt_array, to, in_units) x first use / use after the str spelling filled the registry's cache; each must give prefix * s_canonical "
+    "(z3, all scales) in the registry asked. RELATED strings (related/*): what the parser or the string-keyed cache may conflate with a "
+    "documented name - its two-name splits written with blanks or as an explicit product, the name with surrounding blanks, names that differ "
+    "by case / underscores only - is resolved before, after and around the name on two registries; the name keeps its reading, documented "
+    "relatives keep theirs, an explicit product is the product of the two symbolic scales (nonlinear obligation), a juxtaposition is refused or "
+    "that product, and the outcome of every related string is the same in all three positions (refused everywhere, or one unit)."
 )
 BOUNDS = {
     "quick": "all 3872 exposed names x {string, attribute (unit_symbols + top level), add_symbols namespace of a custom registry}, 145 symbolic "
@@ -84,7 +100,12 @@ BOUNDS = {
              "documented spellings prefix ++ name, k/m/da/P ++ name; "
              "edits of a table symbol: all 143 symbols with a symbolic scale x {modify (+ namespace), readd, remove, flip, copy-modify, "
              "plain-modify}, each after one use of every spelling; spellings: all aliases / title-case variants and the prefixed forms "
-             "(symbol, short alias, word, title word) for k, m, da and the three micro spellings (1222 spellings in all)",
+             "(symbol, short alias, word, title word) for k, m, da and the three micro spellings (1222 spellings in all); "
+             "string forms: all names with a non-ASCII character + a VERIF_SEED sample of 160 ASCII names x {bytes; for the non-ASCII names and "
+             "every 8th other also numpy.bytes_, numpy.str_, str subclass, and bytes through unyt_quantity / unyt_array / to / in_units} x "
+             "{first use, after str}; related strings: all documented names that split into two documented names and are no prefix ++ symbol form "
+             "(108) + a sample of 60 of the 355 prefix-symbol forms that do + a sample of 40 of the 218 groups of names equal up to case / "
+             "underscores, each with 'a b', 'a  b', 'a<TAB>b', 'a*b', ' n', 'n ' and the other group members x 3 positions on 2 registries",
     "thorough": "same, plus prefix word x every non-prefixable alias and the title-case spellings in the rejection sweep (~25000 strings); "
                 "registry configurations: all 9 histories for every family ('add' with the full battery too), samples of 160 prefix-word / "
                 "title prefix-word tails, all 59 prefixed-symbol tails, all-SAT re-enumeration for the alias kinds as well; "
@@ -92,7 +113,8 @@ BOUNDS = {
                 "short alias with all 9 histories; all 132 micro ++ symbol forms and VERIF_SEED samples of 200 other prefix ++ symbol, 240 "
                 "prefix-word and 240 title prefix-word forms (of 835 / 1120 / 1040: cut for wall time, one mechanism each) with {built, add, "
                 "use-add, add-remove}; joint registries of 4 resp. 8 rows; edits of a table symbol: all 9 histories (+ remove-add, modify-twice, "
-                "plain-readd), the spellings with ALL prefixes (3798 spellings)",
+                "plain-readd), the spellings with ALL prefixes (3798 spellings); string forms: all names; related strings: all 463 names "
+                "with a two-name split and all 218 case / underscore groups",
 }
 OUTSIDE = ("strings that are no documented spelling and no prefix+unit split (user-defined names: C12/C13); malformed expressions (C20); "
            "LaTeX representation; the alias list itself is the documentation (taken as given); top-level names shadowed by a physical "
@@ -104,7 +126,9 @@ OUTSIDE = ("strings that are no documented spelling and no prefix+unit split (us
            "'da' first and splits once), row names / tails that are no python identifier or are keywords ('in', 'as', the 66 names "
            "with a degree sign), dependent table rows after an edit (modify('m') leaves 'inch' alone: C12/C13), compound expressions "
            "cached before an edit (C13), define_unit on the process-wide default registry (C13), registries restored from JSON / "
-           "pickle (C11)")
+           "pickle (C11); string forms: encodings other than utf-8, padded / NUL-terminated labels, '%' and degree-sign rewriting inside "
+           "compound expressions; related strings: splits into three or more names, splits whose parts carry an offset (degC), "
+           "unicode normalisation forms (MICRO SIGN and GREEK MU are the same unit), division / power expressions (C13, C20)")
 CONFORM = {"quick": 8, "thorough": 16}
 # the histories that matter here are written inside the cases (custom/*, edit/*); the runner's sampled warm variants stay at the
 # number the thorough tier had before the named-row and edit families were added
@@ -1066,6 +1090,229 @@ def make_edit_case(sym, names, hists):
     return Case(f"C14/edit/{_edit_id(sym)}", h, bounds=f"{len(names)} spellings x {len(hists)} histories, 145+2 symbolic scales", budget_s=600, weight=4)
 
 
+# ---- the FORM in which the unit string is handed over ------------------------------------------------------------------
+# Unit() accepts the name as str and as bytes (labels read back from HDF5 attributes / FITS cards / numpy "S" fields), numpy
+# hands out its own scalar subclasses of both, and every constructor / conversion that takes `units` passes the object on.
+# A documented spelling must denote the same unit in each form.  Discrete axes: the name (all names with a non-ASCII
+# character, where encodings differ; a VERIF_SEED sample resp. all of the ASCII ones), the form (bytes utf-8, numpy.bytes_,
+# numpy.str_, a str subclass), the receiving call (Unit, unyt_quantity(units=), unyt_array(units=), quantity.to, in_units);
+# the form is used on a registry that has not seen the str spelling yet, then the str spelling, then the form again (cache
+# filled by the other form).  Continuous: the 145 table scales.
+
+FORM_SAMPLE = {"quick": 160, "thorough": None}
+
+
+class _Str(str):
+    pass
+
+
+def _forms_of(name, rich):
+    import numpy as np
+    b = name.encode("utf-8")
+    out = [("bytes", b)]
+    if rich:
+        out += [("numpy.bytes_", np.bytes_(b)), ("numpy.str_", np.str_(name)), ("str-subclass", _Str(name))]
+    return out
+
+
+def make_forms_case(k, chunk):
+    def h(ctx):
+        unyt = ctx.mods["unyt"]
+        Unit = unyt.Unit
+        UA = ctx.mods["UA"]
+        T = tables()
+        reg, S = sym_registry(ctx)
+        reg_str, _ = sym_registry(ctx)          # sees str spellings only
+        for i, name in enumerate(chunk):
+            exp = _expected(name, T)
+            if exp is None:
+                continue
+            pv, sym = exp
+            kind = _label_of(name, T).split("/")[0]
+            asc = "ascii" if name.isascii() else "non-ascii"
+            E = oracle_var(ctx, "e:" + name, S[sym] * pv)
+            rich = (not name.isascii()) or i % 8 == 0
+            rs = call(Unit, name, registry=reg_str)
+            if rs[0] == "raise":
+                # the str spelling itself is refused (that is names/*'s obligation "string/..." to report, e.g. the exported
+                # <prefix word> ++ degree-sign names): what is demanded of the other forms is the same outcome
+                for fname, obj in _forms_of(name, rich) + [("str", name)]:
+                    r = call(Unit, obj, registry=reg)
+                    ctx.require(f"form/{fname}/same outcome as a str spelling that is refused/{asc}/{kind}",
+                                r[0] == "raise" and type(r[1]) is type(rs[1]), name=name, str_outcome=type(rs[1]).__name__,
+                                got=(str(r[1])[:60] if r[0] == "ok" else type(r[1]).__name__))
+                continue
+
+            def verdict(r):
+                return r[0] == "ok" and And(_unit_ok(ctx, r[1], E, T, exp), r[1].registry is reg)
+
+            def got(r):
+                return str(r[1])[:60] if r[0] == "ok" else type(r[1]).__name__
+            forms = _forms_of(name, rich)
+            for fname, obj in forms:            # before the registry has seen the str spelling
+                r = call(Unit, obj, registry=reg)
+                ctx.require(f"form/{fname}/first use/{asc}/{kind}", verdict(r), name=name, got=got(r), expected=f"{pv}*{sym}")
+            r = call(Unit, name, registry=reg)
+            ctx.require(f"form/str/after the other forms/{asc}/{kind}", verdict(r), name=name, got=got(r), expected=f"{pv}*{sym}")
+            for fname, obj in forms:            # answered from whatever the str lookup left behind
+                r = call(Unit, obj, registry=reg)
+                ctx.require(f"form/{fname}/after str/{asc}/{kind}", verdict(r), name=name, got=got(r), expected=f"{pv}*{sym}")
+            if rich and T.rows[sym][2] == 0.0:
+                # the calls that pass `units` on (offset units excluded: conversions of a number are C03's matter)
+                b = name.encode("utf-8")
+                for cname, fn in (("unyt_quantity(units=)", lambda: UA.unyt_quantity(1.0, b, registry=reg).units),
+                                  ("unyt_array(units=)", lambda: UA.unyt_array([1.0, 2.0], b, registry=reg).units),
+                                  ("quantity.to", lambda: UA.unyt_quantity(1.0, Unit(sym, registry=reg)).to(b).units),
+                                  ("quantity.in_units", lambda: UA.unyt_quantity(1.0, Unit(sym, registry=reg)).in_units(b).units)):
+                    r = call(fn)
+                    ok = r[0] == "ok" and _unit_ok(ctx, r[1], E, T, exp)
+                    ctx.require(f"form/bytes/{cname}/{asc}/{kind}", ok, name=name, got=got(r), expected=f"{pv}*{sym}")
+        ctx.observe("names", len(chunk))
+    return Case(f"C14/forms/{k:02d}", h, bounds=f"{len(chunk)} names x up to 4 forms x 3 uses + 4 receiving calls, 145 symbolic scales", budget_s=600, weight=5)
+
+
+def forms_layout(tier, mods):
+    T = tables()
+    seed = int(os.environ.get("VERIF_SEED", "0") or 0)
+    rnd = random.Random(3000 + seed)
+    names = [n for n in _all_names(mods) if n and _expected(n, T) is not None]
+    non = [n for n in names if not n.isascii()]
+    asc = [n for n in names if n.isascii()]
+    k = FORM_SAMPLE[tier]
+    if k is not None:
+        asc = sorted(rnd.sample(asc, min(k, len(asc))))
+    return non + asc
+
+
+# ---- RELATED strings resolved earlier on the same registry ---------------------------------------------------------------
+# The registry answers repeated unit strings from a cache keyed by the typed string, and the parser normalises what it is
+# given; whatever either of them conflates must not give a documented name a second reading.  For a documented name n the
+# related strings walked here: for every split n = a ++ b into two documented names the juxtaposition "a b" (blank, two
+# blanks, tab), and the explicit product "a*b"; n with a leading / trailing blank; the other documented names that differ from
+# n only by letter case or underscores ("Ms"/"ms", "mG"/"Mg").  Two registries per chunk: A resolves the related strings,
+# then n, then the related strings again; B resolves n first.  Obligations: n == prefix * s_canonical in both; a related
+# string that is a documented name == its own reading, "a*b" == the product unit, in every position; any other related string
+# has ONE outcome (refused, or the same unit) in all three positions, and a juxtaposition is refused or the product.
+
+REL_SAMPLE = {"quick": (60, 40), "thorough": (None, None)}      # (psym split names, case/underscore groups)
+_REL = {}
+
+
+def related_layout(tier, mods):
+    key = ("rel", tier)
+    if key in _REL:
+        return _REL[key]
+    T = tables()
+    seed = int(os.environ.get("VERIF_SEED", "0") or 0)
+    rnd = random.Random(4000 + seed)
+    names = [n for n in _all_names(mods) if n and n != "_" and _expected(n, T) is not None]
+    splits = {}
+    for n in names:
+        for i in range(1, len(n)):
+            a, b = n[:i], n[i:]
+            if a.isidentifier() and b.isidentifier() and not keyword.iskeyword(a) and not keyword.iskeyword(b):
+                ea, eb = _expected(a, T), _expected(b, T)
+                if ea is not None and eb is not None and T.rows[ea[1]][2] == 0.0 and T.rows[eb[1]][2] == 0.0:
+                    splits.setdefault(n, []).append((a, b))
+    fold = {}
+    for n in names:
+        fold.setdefault(n.casefold().replace("_", ""), []).append(n)
+    groups = sorted(v for v in fold.values() if len({_expected(n, T) for n in v}) > 1)
+    gen = sorted(n for n in splits if (_kind_of(n, T) or "").startswith("psym"))
+    rest = sorted(n for n in splits if n not in gen)
+    ks, kg = REL_SAMPLE[tier]
+    if ks is not None:
+        gen = sorted(rnd.sample(gen, min(ks, len(gen))))
+    if kg is not None:
+        groups = sorted(rnd.sample(groups, min(kg, len(groups))))
+    items, seen = [], set()
+    for n in rest + gen + [n for g in groups for n in g]:
+        if n in seen:
+            continue
+        seen.add(n)
+        rel = []
+        for a, b in splits.get(n, ()):
+            rel += [("juxtaposed", f"{a} {b}", (a, b)), ("juxtaposed", f"{a}  {b}", (a, b)), ("juxtaposed", f"{a}\t{b}", (a, b)),
+                    ("product", f"{a}*{b}", (a, b))]
+        rel += [("padded", " " + n, n), ("padded", n + " ", n)]
+        rel += [("documented", m, m) for m in fold[n.casefold().replace("_", "")] if m != n and _expected(m, T) != _expected(n, T)]
+        items.append((n, rel))
+    for n, rel in items:
+        for _, _, arg in rel:
+            for x in (arg if isinstance(arg, tuple) else (arg,)):
+                _expected(x, T), _label_of(x, T)
+        _label_of(n, T)
+    _REL[key] = items
+    return items
+
+
+def make_related_case(k, chunk):
+    def h(ctx):
+        unyt = ctx.mods["unyt"]
+        Unit = unyt.Unit
+        PE = unyt.exceptions.UnitParseError
+        T = tables()
+        regA, S = sym_registry(ctx)
+        regB, _ = sym_registry(ctx)
+
+        def val(tag, exp):
+            return oracle_var(ctx, "e:" + tag, S[exp[1]] * exp[0])
+
+        def got(r):
+            return str(r[1])[:60] if r[0] == "ok" else type(r[1]).__name__
+
+        def same(r1, r2):
+            if r1[0] != r2[0]:
+                return False
+            if r1[0] == "raise":
+                return type(r1[1]) is type(r2[1])
+            return And(close(r1[1].base_value, r2[1].base_value), dimvec(r1[1].dimensions) == dimvec(r2[1].dimensions))
+
+        def judge(pos, reg, kind, s, arg, r, n):
+            if kind == "documented":
+                exp = _expected(arg, T)
+                ok = r[0] == "ok" and And(_unit_ok(ctx, r[1], val(arg, exp), T, exp), r[1].registry is reg)
+                ctx.require(f"related/{pos}/documented name that differs by case or underscore keeps its reading/{_label_of(arg, T)}", ok,
+                            string=s, next_to=n, got=got(r))
+            elif kind in ("product", "juxtaposed"):
+                ea, eb = _expected(arg[0], T), _expected(arg[1], T)
+                P = oracle_var(ctx, f"e:{arg[0]}*{arg[1]}", (S[ea[1]] * ea[0]) * (S[eb[1]] * eb[0]))
+                dv = vec_add(dimvec(T.rows[ea[1]][1]), dimvec(T.rows[eb[1]][1]))
+                prod = r[0] == "ok" and And(close(r[1].base_value, P), dimvec(r[1].dimensions) == dv)
+                if kind == "product":
+                    ctx.require(f"related/{pos}/explicit product of two documented names is the product unit", prod, string=s, next_to=n, got=got(r))
+                else:
+                    refused = r[0] == "raise" and isinstance(r[1], PE)
+                    ctx.require(f"related/{pos}/juxtaposed names are refused or the product, never the concatenated name", Or(refused, prod),
+                                string=s, next_to=n, got=got(r))
+            else:
+                exp = _expected(n, T)
+                refused = r[0] == "raise" and isinstance(r[1], PE)
+                ok = r[0] == "ok" and _unit_ok(ctx, r[1], val(n, exp), T, exp)
+                ctx.require(f"related/{pos}/padded name is refused or the name", Or(refused, ok), string=s, next_to=n, got=got(r))
+
+        for n, rel in chunk:
+            exp = _expected(n, T)
+            E = val(n, exp)
+            lab = _label_of(n, T)
+            first = [call(Unit, s, registry=regA) for _, s, _ in rel]
+            rn = call(Unit, n, registry=regA)
+            ctx.require(f"related/name after its related strings/{lab}", rn[0] == "ok" and And(_unit_ok(ctx, rn[1], E, T, exp), rn[1].registry is regA),
+                        name=n, related=[s for _, s, _ in rel], got=got(rn))
+            second = [call(Unit, s, registry=regA) for _, s, _ in rel]
+            rb = call(Unit, n, registry=regB)
+            ctx.require(f"related/name before its related strings/{lab}", rb[0] == "ok" and _unit_ok(ctx, rb[1], E, T, exp), name=n, got=got(rb))
+            third = [call(Unit, s, registry=regB) for _, s, _ in rel]
+            for (kind, s, arg), r1, r2, r3 in zip(rel, first, second, third):
+                judge("before the name", regA, kind, s, arg, r1, n)
+                judge("after the name", regB, kind, s, arg, r3, n)
+                judge("again", regA, kind, s, arg, r2, n)
+                ctx.require(f"related/one outcome whatever was resolved before/{kind}", And(same(r1, r2), same(r1, r3)), string=s, next_to=n,
+                            outcomes=[got(r1), got(r2), got(r3)])
+        ctx.observe("names", len(chunk))
+    return Case(f"C14/related/{k:02d}", h, bounds=f"{len(chunk)} names x their related strings x 3 positions, 145 symbolic scales", budget_s=600, weight=5)
+
+
 _COLL = {}
 
 
@@ -1127,6 +1374,10 @@ def cases(tier, mods):
                 _expected(n, T), _label_of(n, T), _symbol_form(n, T)
         step = 6 if tier == "quick" else (8 if family[len("named-"):] in NAMED_GENERATED else 4)
         out += [make_named_case(family, i // step, items[i:i + step], hists) for i in range(0, len(items), step)]
+    fn = forms_layout(tier, mods)
+    out += [make_forms_case(i // 60, fn[i:i + 60]) for i in range(0, len(fn), 60)]
+    rl = related_layout(tier, mods)
+    out += [make_related_case(i // 25, rl[i:i + 25]) for i in range(0, len(rl), 25)]
     return out
 
 
@@ -1146,8 +1397,13 @@ def coverage_extra(results, tier):
                 registry_configuration_tails=tails, registry_histories=list(HISTORIES),
                 rows_named_like_a_documented_spelling={f: (v if len(v) <= 200 else dict(count=len(v), first=v[:20])) for f, v in named.items()},
                 edited_table_symbols=edit_symbols(tables()), edit_histories=list(EDIT_HISTS[tier]),
+                string_forms=["bytes", "numpy.bytes_", "numpy.str_", "str-subclass", "unyt_quantity(units=bytes)", "unyt_array(units=bytes)",
+                              "quantity.to(bytes)", "quantity.in_units(bytes)"],
+                names_with_related_strings=[n for n, _ in _REL.get(("rel", tier), ())][:400],
                 note=("names/*: solver-decided (symbolic scales); strings/complete*: solver-decided (z3 sequence/regex theory, all strings); "
                       "strings/reject*: enumerated concrete facts (exception class), only the exception list is solver-derived; "
                       "custom/*: solver-decided (symbolic table scales and scale of the added row), rejections are exception classes; "
-                      "edit/*: solver-decided (symbolic old and new scales), rejections and registry identity are ground facts"))
+                      "edit/*: solver-decided (symbolic old and new scales), rejections and registry identity are ground facts; "
+                      "forms/*: solver-decided (symbolic scales); related/*: solver-decided (symbolic scales, products of two scales), "
+                      "refusals are exception classes"))
 
